@@ -1827,6 +1827,57 @@ fn run_foreign(c: &ForeignCase, obs: &mut Obs) -> CheckResult {
             other => return Err(Fail::new(format!("{}: unexpected outcome {}", what, got_name(&other)))),
         }
     }
+    // The same PDU inside a foreign cache's reply to a reset query, taken by the library's
+    // client: cache response, the ASPA, the IPv4 prefix, end of data. The update either
+    // fails (the client may refuse what the constructors cannot build) or holds exactly
+    // what the cache sent.
+    if c.flags <= 1 && c.reserved == 0 {
+        let mut reply: Vec<u8> = vec![2, T_RESPONSE, 0x12, 0x34, 0, 0, 0, 8];
+        reply.extend_from_slice(&stream);
+        reply.extend_from_slice(&[2, T_EOD, 0x12, 0x34, 0, 0, 0, 24, 0, 0, 0, 7, 0, 0, 0x0e, 0x10, 0, 0, 0x02, 0x58, 0, 0, 0x1c, 0x20]);
+        let run = client_update(&reply, &c.chunks, None);
+        let what = format!("client update from a foreign cache whose reply carries an ASPA with {} providers", c.count);
+        judge_liveness(&run, &what)?;
+        match &run.result {
+            Err(_) => {
+                label_once(obs, "client-refused");
+                ensure!(
+                    c.count as usize > pdu::ProviderAsns::MAX_COUNT,
+                    "{}: Client::update() failed on a reply the library's own server could have written", what
+                );
+            }
+            Ok(list) => {
+                label_once(obs, "client-took-it");
+                let ok = list.len() == 2
+                    && match &list[0] {
+                        (action, pl::Payload::Aspa(a)) => {
+                            let got: Vec<u32> = a.providers.iter().map(|x| x.into_u32()).collect();
+                            let want: &[u32] = if c.flags == 1 { &provs } else { &[] };
+                            *action == (if c.flags == 1 { pl::Action::Announce } else { pl::Action::Withdraw })
+                                && a.customer == Asn::from_u32(c.customer)
+                                && got == want
+                        }
+                        _ => false,
+                    }
+                    && matches!(&list[1], (pl::Action::Announce, pl::Payload::Origin(_)));
+                ensure_sig!(
+                    ok,
+                    "c07:foreign-aspa-client",
+                    "{}: the update holds {} items, first {:?} with {} providers; the cache sent the ASPA with {} providers and one origin",
+                    what,
+                    list.len(),
+                    list.first().map(|(a, _)| a),
+                    match list.first() {
+                        Some((_, pl::Payload::Aspa(a))) => a.providers.iter().count(),
+                        _ => 0,
+                    },
+                    c.count
+                );
+                ensure!(run.state == Some((0x1234, 7)), "{}: client state {:?}", what, run.state);
+                ensure!(run.served == reply.len(), "{}: client consumed {} of {} octets", what, run.served, reply.len());
+            }
+        }
+    }
     Ok(())
 }
 
